@@ -466,9 +466,21 @@ class DavSession:
         return self._record(ev, resp, {"m": "PROPPATCH", "path": path, "ops": [[p, v] for (p, v) in ops]})
 
     def restart(self, defaults=False):
-        self.world.restart(defaults=defaults)
-        return self._record({"op": "Restart", "defaults": bool(defaults)}, None,
-                            {"m": "RESTART", "defaults": bool(defaults)})
+        failed = ""
+        try:
+            self.world.restart(defaults=defaults)
+        except Exception as exc:
+            # the server did not come up (an observation, e.g. start-up code that writes and runs
+            # into a lock the environment holds): the environment's locks go, it is started again
+            failed = type(exc).__name__
+            for c in list(self.locked):
+                p = os.path.join(self.world.fspath(self.slots[c]), ".git", "index.lock")
+                if os.path.exists(p):
+                    os.unlink(p)
+                self.locked.discard(c)
+            self.world.start()
+        ev = {"op": "Restart", "defaults": bool(defaults), "startfail": failed}
+        return self._record(ev, None, {"m": "RESTART", "defaults": bool(defaults), "start_failed": failed})
 
     def lock(self, c, on=True):
         """Environment action: a stale .git/index.lock appears / disappears (tree stores)."""
